@@ -11,6 +11,7 @@ META = {
     "level": "Decides the structural clauses: quarter-named files are ordered by (year, quarter) exactly for the regex that has those two groups, and by name otherwise; the already-moved bookkeeping spans all files; a move links the source's chain to a NEW checkpoint opened in the target, so only commands recorded for the target afterwards are picked up; a move/slotmove of an already moved name changes nothing; lines with a wrong field count, a versioned or malformed atom, a slotted slotmove source or an unknown command are skipped without effect; the per-name command list is the flattening of its chain from its start point. Does NOT decide concrete update sets.",
     "note": "",
 }
+META["technique"] += "; " + 'generic pack G on the anchored files (optional-flag shift, closures outliving a loop iteration, single-pass iterables consumed twice, %-templates built from data, in-place writes to class-level / memoised objects, generators mutating what they yielded, memo keys that are projections)'
 MOD = "pkgcore.ebuild.pkg_updates"
 OPS = {ast.GtE: lambda a, b: a >= b, ast.Gt: lambda a, b: a > b, ast.Eq: lambda a, b: a == b, ast.NotEq: lambda a, b: a != b, ast.Lt: lambda a, b: a < b, ast.LtE: lambda a, b: a <= b}
 
